@@ -342,8 +342,8 @@ int array::set(const value &val)
 	if (!buf) {
 		return BadOperation;
 	}
-	if (!mpt_buffer_set(buf, traits, len, ptr, 0)
-	 || ((reserve > len) && !mpt_buffer_set(buf, traits, 1, "", len))) {
+	if (mpt_buffer_set(buf, traits, 0, ptr, len) < 0
+	 || ((reserve > len) && mpt_buffer_set(buf, traits, len, "", 1) < 0)) {
 		buf->unref();
 		return BadOperation;
 	}
